@@ -32,6 +32,8 @@ fn main() {
         prop, env.tier, env.seed, env.threads
     );
     let code = match prop.as_str() {
+        "C01" => props::c01::run_c01(&env),
+        "C02" => props::c01::run_c02(&env),
         "C03" => props::c03::run(&env),
         "C04" => props::c04::run(&env),
         "C05" => props::c05::run(&env),
